@@ -94,14 +94,6 @@ Example C18_to_types_full :
   m256_to_types b 256 = [0; 63; 64; 191; 255].
 Proof. vm_compute. reflexivity. Qed.
 
-Print Assumptions C18_ids_stable.
-Print Assumptions C18_ids_sequential.
-Print Assumptions C18_ids_injective.
-Print Assumptions C18_limit.
-Print Assumptions C18_locked_rollback.
-Print Assumptions C18_mask256_get.
-Print Assumptions C18_mask256_set.
-Print Assumptions C18_to_types_256.
-Print Assumptions C18_to_types_64.
-Print Assumptions C18_resources_add.
-Print Assumptions C18_resources_remove.
+(** One traversal of the dependency graph for all theorems of this file. *)
+Definition C18_all := (C18_ids_stable, C18_ids_sequential, C18_ids_injective, C18_limit, C18_locked_rollback, C18_mask256_get, C18_mask256_set, C18_to_types_256, C18_to_types_64, C18_resources_add, C18_resources_remove).
+Print Assumptions C18_all.
